@@ -11,6 +11,7 @@
   * `TTSound` — exact-depth soundness of every key-verified table entry.
 -/
 import Flounder.Spec.Minimax
+import Flounder.Lemmas.Ranked
 
 namespace Flounder.Search
 open Flounder Gen
@@ -235,6 +236,32 @@ theorem ttSound_store {c : Int → Int} {S : P → Prop} {qf : Nat} {t : TT} (hi
     subst this
     cases hr
     exact he
+
+/-! #### depth-ranked families (Lemmas/Ranked.lean) versus closed sets -/
+
+/-- `HashInj` (this file) and `HashInjOn` (Lemmas/Ranked.lean) are the same statement. -/
+theorem hashInj_iff_hashInjOn (U : P → Prop) : HashInj G U ↔ HashInjOn G U := Iff.rfl
+
+theorem HashInjOn.hashInj {U : P → Prop} (h : HashInjOn G U) : HashInj G U := h
+theorem HashInj.hashInjOn {U : P → Prop} (h : HashInj G U) : HashInjOn G U := h
+
+/-- a closed set is a (constant) ranked family. -/
+theorem Ranked.ofClosed {G : Game P} {S : P → Prop} (h : Closed G S) : Ranked G (fun _ => S) :=
+  ⟨fun _ p m hp hm => h p m hp hm, fun _ _ hp => hp⟩
+
+/-- the positions of a constant family. -/
+theorem Ranked.U_const (S : P → Prop) : Ranked.U (fun _ : Nat => S) = S := by
+  funext p
+  exact propext ⟨fun ⟨_, h⟩ => h, fun h => ⟨0, h⟩⟩
+
+theorem Ranked.mem_U {S : Nat → P → Prop} {d : Nat} {p : P} (h : S d p) : Ranked.U S p := ⟨d, h⟩
+
+/-- a table that is sound on a set is sound on every subset. -/
+theorem TTSound.mono {c : Int → Int} {S S' : P → Prop} {qf : Nat} {t : TT} (h : TTSound G c S' qf t)
+    (hs : ∀ p, S p → S' p) : TTSound G c S qf t := fun p hp e he => h p (hs p hp) e he
+
+theorem HashInj.mono {S S' : P → Prop} (h : HashInj G S') (hs : ∀ p, S p → S' p) : HashInj G S :=
+  fun p q hp hq e => h p q (hs p hp) (hs q hq) e
 
 end tt
 
